@@ -85,6 +85,9 @@ pub enum Op {
     Get { id: IdRef },
     Head { topic: String, ctx: CtxRef },
     Settle,
+    /// enough ~1 MiB frames to overflow the 16 MiB memtable: fjall rotates it and its flush
+    /// worker writes a segment in the background (thorough tier only)
+    Bulk { topic: String, ctx: CtxRef, n: usize },
 }
 
 #[derive(Serialize, Deserialize, Clone, Debug)]
@@ -432,6 +435,11 @@ pub fn generate(seed: u64, cfg: &GenCfg) -> Plan {
             _ => Op::Settle,
         };
         ops.push(op);
+    }
+    if cfg.big_meta_max >= 9 && rng.chance(2) {
+        // thorough tier: bulk data somewhere in the middle of the history
+        let at = rng.below(ops.len().max(1));
+        ops.insert(at, Op::Bulk { topic: "bulk".to_string(), ctx: CtxRef::Zero, n: 17 });
     }
     ops.push(Op::Settle);
     Plan {
@@ -952,6 +960,24 @@ impl Exec {
                 }
             }
             Op::Settle => self.settle(&what)?,
+            Op::Bulk { topic, ctx, n } => {
+                let c = self.ctx(ctx);
+                let before = self.store().verif_segment_count();
+                for k in 0..*n {
+                    self.do_append(&format!("{} #{}", what, k), topic, c, None, meta_pool(9), None)?;
+                }
+                // give the flush worker a moment; the result of reads must not depend on it
+                for _ in 0..200 {
+                    if self.store().verif_segment_count() > before {
+                        self.w.probe("layout:size-triggered-flush");
+                        self.flushed = true;
+                        break;
+                    }
+                    std::thread::sleep(Duration::from_millis(2));
+                }
+                let all: Vec<Frame> = self.store().read_sync(None, None, None).collect();
+                self.model.check_read(&format!("{} (after bulk data)", what), None, None, None, &all, None)?;
+            }
         }
         Ok(())
     }
